@@ -49,6 +49,22 @@ CHECKS={
         "All trees over {leaf, while, if, if/else, scope, scope-with-initialiser-and-merger} with <= 3 (quick) / 5 (thorough) nodes and all 5^leaves leaf effects (plus all shapes of 4 nodes with a fixed effect pattern in quick), with and without the probed state in the caller: 1.97 M trees / 135 M executions thorough. For every execution the full (phase, node, visible state, visible iteration counter, scope depth) trace, the result (first error) and the caller's final state (scope depth 1, exactly the reference entries) must equal the reference interpreter's.",
         "Condition outcomes are exhaustive for the first 5 / 6 evaluations of an execution and false afterwards; at most one injected error per execution. Larger trees assumed to compose.",
         "DESIGN.md 5 C03"),
+ "C05":("explicit-state BFS + run explorer with step observer","explicit-state BFS over all reachable (solution, evaluated) states of the real Individual / population helper API; stateless exhaustive exploration of every template run under bounded deviations of the generator stream with a step observer that re-evaluates every individual in the whole state after every component execution",
+        "Part A: all reachable states of up to 2 (quick) / 3 (thorough) individuals over 3 solutions; every individual-level operation from every state on rebuilt real objects against an evaluated/unevaluated model, invariant 'evaluated => objective = f(solution)' checked on the real objects in every state (plus a history-complete search). Part B: all 21 templates x 2-4 parameter sets x instances; the default generator stream of each base seed with at most one word replaced by each menu word at every draw position; after every child of every sequential block (hook H1) every individual in every population of every scope, the best individual, archives, personal/global bests and molecule memories must carry exactly the objective function's value for its solution.",
+        "Random behaviour: all single deviations from the default streams (menu of 8 / 19 words, 2 / 6 base seeds); not all 2^64-word streams. Steps are observed at Block granularity (components nested in Loop/Branch/Scope bodies are Blocks too).",
+        "DESIGN.md 5 C05"),
+ "C06":("completion-order gate + run explorer with step observer","exhaustive enumeration of prepared states for the evaluation component (every evaluated/unevaluated mask, sequential / user-defined / parallel evaluators, every completion order of the objective calls enforced through a gate); stateless exhaustive exploration of every template run under bounded generator deviations with per-step call/counter accounting",
+        "Part A: PopulationEvaluator<Global|A> on no population / populations of 0..3 (quick) / 0..4 (thorough) individuals with every mask (pre-evaluated ones carry stale values): each solution passed to the objective exactly once, order and solutions unchanged, objective = f, counter += N, stack untouched; Parallel on dedicated pools with all N! completion orders for N <= pool size; missing evaluator identifier fails before anything executes. Part B: in every run of all 21 templates every evaluator step and firefly update advances the counter by exactly the objective calls made; at run end evaluations() = calls; evaluation budgets overshoot by less than one pass.",
+        "Thread schedules are explored at the granularity of objective-call completion order (all N! for N <= pool size <= 6); pools smaller than N run free (not exhaustive); interleavings inside rayon are not explored.",
+        "DESIGN.md 5 C06"),
+ "C07":("grid enumeration + run explorer with step observer","exhaustive enumeration of candidate sequences for the best-individual update and of population sequences x capacities for the elitist archive; stateless exhaustive exploration of every template run under bounded generator deviations with an observer on every best-update step and an end-of-run comparison with the minimum the instrumented objective returned",
+        "Part A: BestIndividual::update on all candidate sequences of length <= 4/5 over {0,1,2,+inf} with ties; BestIndividualUpdate on all populations of size 0..3 x 5 previous-best classes; ElitistArchiveUpdate on all sequences of <= 2/3 populations x capacities 0..4 then ElitistArchiveIntoPopulation into 3 target populations. Part B: every BestIndividualUpdate step of every run of all 21 templates (best <= members, monotone, replaced only on strict improvement) and best_objective_value() = min returned at run end.",
+        "Random behaviour: all single deviations from the default streams; objective functions sphere / shifted / linear (optimum on the border).",
+        "DESIGN.md 5 C07"),
+ "C16":("run explorer with step observer","stateless exhaustive exploration of all 21 template constructors x valid parameter sets x instances under bounded deviations of the generator stream (every draw position of the run), with a recording loop condition",
+        "Every template x 2-4 parameter sets (incl. the smallest populations) x sphere/linear(/shifted) real, binary and 4/5-city TSP instances: result Ok, no panic, iterations() = n, n+1 condition tests, stack height at every test equal to the first, one population at the end, population size within the template's prescription at every test -- for the default stream of each base seed and every single replacement of a generator word by a menu word (476 k runs thorough).",
+        "'Every seed' is bounded by base seeds x single deviations; failures needing two specific unusual words in one run are outside the bound.",
+        "DESIGN.md 5 C16"),
 }
 CHECKS_DONE=1
 BASE=json.load(open('/root/.vp/BASELINE.json'))
